@@ -1,19 +1,22 @@
 #!/bin/sh
-# usage: allcheck.sh <patch.diff>  -- apply a patch to /repo, run every quick check, print violations, undo the patch.
-P="$1"
-cd /repo || exit 2
-git apply --check "$P" 2>/dev/null || { echo "PATCH DOES NOT APPLY: $P"; exit 3; }
-git apply "$P"
+# usage: allcheck.sh <patch.diff> [Cxx ...] -- apply a patch to a scratch copy of /repo (never to /repo itself), run the quick checks on it, delete the copy.
+P="$1"; shift
+IDS="$@"
+[ -z "$IDS" ] && IDS="C01 C02 C03 C05 C06 C07 C08 C09 C10 C11 C12 C13 C14 C15 C16 C17 C18 C19"
+mkdir -p /var/tmp/nuts-verif
+S=$(mktemp -d /var/tmp/nuts-verif/allcheck.XXXXXX)
+rsync -a --exclude target --exclude .git /repo/ "$S"/
+if ! patch -p1 -s -f -d "$S" -i "$P" >/dev/null 2>&1; then echo "PATCH DOES NOT APPLY: $P"; rm -rf "$S"; exit 3; fi
+[ -d /var/tmp/nuts-verif/target-ac ] || cp -a /var/tmp/nuts-verif/target-all /var/tmp/nuts-verif/target-ac 2>/dev/null
 cd /verif
-for id in C01 C02 C03 C05 C06 C07 C08 C09 C10 C11 C12 C13 C14 C15 C16 C17 C18 C19; do
-  out=$(./check $id --tier quick 2>&1)
+for id in $IDS; do
+  out=$(NUTS_VERIF_TARGET_TAG=ac ./check $id --tier quick --repo "$S" 2>&1)
   rc=$?
   if [ $rc -ne 0 ]; then
     echo "--- $id rc=$rc"
-    echo "$out" | grep -E "rule=|does not build|Traceback|Error" | cut -c1-330 | head -6
+    echo "$out" | grep -E "rule=|does not build|Traceback|Error" | cut -c1-330 | head -8
   fi
 done
-git -C /repo checkout -- .
-git -C /repo clean -fdq -e target 2>/dev/null
-git -C /repo status --short | head -3
+rm -rf "$S"
+git -C /verif checkout -- evidence 2>/dev/null
 echo "done $P"
